@@ -45,7 +45,13 @@ type redisWorld struct {
 	// the cursor is not 0)
 	scanPage  int
 	scanEmpty int
-	pmu       sync.Mutex          // guards scans and capture (touched by the pumps of a connection)
+	// lost messages: burst ordinal (all connections) -> "req_lost" | "reply_lost". The connection
+	// breaks: the client sees an I/O error and cannot know whether the server executed anything
+	netFaults map[int64]string
+	bursts    int64
+	dropS2C   map[int]bool
+	LostMsgs  int64
+	pmu       sync.Mutex          // guards scans, capture and dropS2C (touched by the pumps of a connection)
 	scans     map[int][][]string  // connection -> pages still to hand out (index = cursor)
 	capture   map[int]chan []byte // connection -> where the next complete server reply goes
 }
@@ -60,7 +66,13 @@ func newRedisWorld(e *sim.Env, c *sim.Case) (*redisWorld, error) {
 	m.Seed(1)
 	now := time.Now()
 	m.SetTime(now.Add(time.Duration(c.Knob("redis_clock_skew_ns", 0))))
-	return &redisWorld{scanPage: int(c.Knob("scan_page", 0)), scanEmpty: int(c.Knob("scan_empty_pages", 0)), scans: map[int][][]string{}, capture: map[int]chan []byte{}, e: e, m: m, clients: map[int]kvs.Storage{}, last: now, latency: time.Duration(c.Knob("net_latency_ns", 0)), skew: time.Duration(c.Knob("redis_clock_skew_ns", 0))}, nil
+	nf := map[int64]string{}
+	for _, f := range c.Faults {
+		if f.Seam == "net" {
+			nf[f.Ord] = f.Kind
+		}
+	}
+	return &redisWorld{netFaults: nf, dropS2C: map[int]bool{}, scanPage: int(c.Knob("scan_page", 0)), scanEmpty: int(c.Knob("scan_empty_pages", 0)), scans: map[int][][]string{}, capture: map[int]chan []byte{}, e: e, m: m, clients: map[int]kvs.Storage{}, last: now, latency: time.Duration(c.Knob("net_latency_ns", 0)), skew: time.Duration(c.Knob("redis_clock_skew_ns", 0))}, nil
 }
 
 func (rw *redisWorld) syncClock() {
@@ -169,6 +181,38 @@ func (rw *redisWorld) pumpC2S(id int, from, to net.Conn) {
 			return
 		}
 		acc = append(acc, buf[:n]...)
+		rw.bursts++
+		if kind := rw.netFaults[rw.bursts]; kind != "" {
+			zsimrt.Yield("net:c2s:fault")
+			if rw.latency > 0 {
+				// lost or not, the burst is under way as long as any other
+				zsimrt.Sleep("net:latency", rw.latency)
+			}
+			rw.LostMsgs++
+			rw.e.FaultFired("net_" + kind)
+			rw.e.Logf("redis conn%d burst #%d: %s, connection broken", id, rw.bursts, kind)
+			if kind == "reply_lost" {
+				// the server gets and executes everything; what it answers never arrives
+				rw.pmu.Lock()
+				rw.dropS2C[id] = true
+				rw.pmu.Unlock()
+				rw.syncClock()
+				for {
+					cmd, rest, _, ok := parseCommand(acc)
+					if !ok {
+						break
+					}
+					acc = append([]byte(nil), rest...)
+					rw.cmds++
+					if _, err := to.Write(cmd); err != nil {
+						break
+					}
+				}
+			}
+			from.Close()
+			to.Close()
+			return
+		}
 		first := true
 		single := false
 		if _, rest, _, ok := parseCommand(acc); ok && len(rest) == 0 {
@@ -257,7 +301,11 @@ func (rw *redisWorld) pumpS2C(id int, from, to net.Conn) {
 		}
 		rw.pmu.Lock()
 		ch := rw.capture[id]
+		drop := rw.dropS2C[id]
 		rw.pmu.Unlock()
+		if drop {
+			continue
+		}
 		if ch != nil {
 			// the pump itself asked (SCAN paging): the reply goes to it, not to the client
 			held = append(held, chunk...)
